@@ -95,6 +95,7 @@ def native_janus(order, N, nsteps, seed=None, recalc=False):
             a = 1.0 + 0.6 * i
             ns.add(m=1e-3 * (1 + rnd.random()), x=a, y=0.1 * rnd.random(), z=0.05 * rnd.random(), vy=a ** -0.5, vx=0.01 * rnd.random(), vz=0.02 * rnd.random())
         ns.set('integrator', L.enumerators['REB_INTEGRATOR_JANUS']); ns.set('ri_janus.order', order); ns.set('dt', 0.013)
+        ns.set('ri_janus.scale_pos', 1e-16); ns.set('ri_janus.scale_vel', 3e-16)          # unequal grid scales (supported; equal scales hide pos/vel mix-ups)
         ns.call('reb_simulation_step')            # establishes the grid state
         if recalc:
             # the user edits a particle and requests a re-derivation of the grid state; the step consuming the request is the reference
